@@ -69,11 +69,12 @@ func specVhash(v []byte) uint16 {
 }
 
 // little-endian reads
-func le16(b []byte, o int) uint16 { return uint16(b[o]) | uint16(b[o+1])<<8 }
+// (written with + and * so that they mean the same over machine and mathematical integers)
+func le16(b []byte, o int) uint16 { return uint16(b[o]) + uint16(b[o+1])*256 }
 func le32(b []byte, o int) uint32 {
-	return uint32(b[o]) | uint32(b[o+1])<<8 | uint32(b[o+2])<<16 | uint32(b[o+3])<<24
+	return uint32(b[o]) + uint32(b[o+1])*256 + uint32(b[o+2])*65536 + uint32(b[o+3])*16777216
 }
-func le64(b []byte, o int) uint64 { return uint64(le32(b, o)) | uint64(le32(b, o+4))<<32 }
+func le64(b []byte, o int) uint64 { return uint64(le32(b, o)) + uint64(le32(b, o+4))*4294967296 }
 
 // MurmurHash3 x86_32, seed 0 (reference algorithm, written independently of the library)
 func specRotl32(x uint32, r uint) uint32 { return x<<r | x>>(32-r) }
@@ -180,12 +181,12 @@ func lemmaCRCStep(c uint32, b byte) bool {
 
 //@ func newCrc32
 //@   props C16 C09
-//@   ints bv
+//@   ints both
 //@   ensures fresh(result0) && result0.crc == 0xffffffff
 
 //@ func (h *crc32) write
 //@   props C16 C09
-//@   ints bv
+//@   ints both
 //@   assumed cgo call C.crc32_write through unsafe.Pointer; table proved, step lemma proved, loop bounded-checked
 //@   requires len(data) >= 1
 //@   modifies h.crc
@@ -193,7 +194,7 @@ func lemmaCRCStep(c uint32, b byte) bool {
 
 //@ func (h *crc32) get
 //@   props C16 C09
-//@   ints bv
+//@   ints both
 //@   ensures result0 == ^h.crc
 
 // ---------- C01: version arithmetic (from the statement) ----------
@@ -237,7 +238,7 @@ func specPadded(n uint32) uint32 { return ((n + 255) >> 8) << 8 }
 
 //@ func (rec *Record) Sizes
 //@   props C09
-//@   ints bv
+//@   ints both
 //@   requires rec.Payload != nil && len(rec.Key) <= 255 && len(rec.Payload.Body) < 1<<31
 //@   ensures result0 == uint32(24+len(rec.Key)+len(rec.Payload.Body))
 //@   ensures result1 == specPadded(result0)
@@ -245,7 +246,7 @@ func specPadded(n uint32) uint32 { return ((n + 255) >> 8) << 8 }
 
 //@ func (rec *Record) Size
 //@   props C09
-//@   ints bv
+//@   ints both
 //@   requires rec.Payload != nil && len(rec.Key) <= 255 && len(rec.Payload.Body) < 1<<31
 //@   ensures result0 == specPadded(uint32(24+len(rec.Key)+len(rec.Payload.Body)))
 
@@ -380,7 +381,7 @@ func specRecordCRC(h20, key, val []byte) uint32 {
 
 //@ func wrapRecord
 //@   props C09
-//@   ints bv
+//@   ints both
 //@   requires rec != nil && rec.Payload != nil && len(rec.Key) <= 255 && len(rec.Payload.Body) < 1<<31
 //@   modifies rec.Payload.RecSize
 //@   ensures fresh(result0) && result0.rec == rec && result0.ksz == uint32(len(rec.Key)) && result0.vsz == uint32(len(rec.Payload.Body))
@@ -388,13 +389,13 @@ func specRecordCRC(h20, key, val []byte) uint32 {
 
 //@ func (wrec *WriteRecord) getCRC
 //@   props C09 C16
-//@   ints bv
+//@   ints both
 //@   requires wrec.rec != nil && wrec.rec.Payload != nil
 //@   ensures result0 == specRecordCRC(wrec.header[4:], wrec.rec.Key, wrec.rec.Payload.Body)
 
 //@ func (wrec *WriteRecord) encodeHeader
 //@   props C09
-//@   ints bv
+//@   ints both
 //@   requires wrec.rec != nil && wrec.rec.Payload != nil
 //@   requires !sameArray(wrec.rec.Key, wrec.header[:]) && !sameArray(wrec.rec.Payload.Body, wrec.header[:])
 //@   modifies wrec.header
@@ -404,7 +405,7 @@ func specRecordCRC(h20, key, val []byte) uint32 {
 
 //@ func decodeHeader
 //@   props C09
-//@   ints bv
+//@   ints both
 //@   requires wrec != nil && wrec.rec != nil && wrec.rec.Payload != nil && len(h) >= 24
 //@   modifies wrec.crc, wrec.ksz, wrec.vsz, wrec.rec.Payload.TS, wrec.rec.Payload.Flag, wrec.rec.Payload.Ver
 //@   ensures err == nil
@@ -413,7 +414,7 @@ func specRecordCRC(h20, key, val []byte) uint32 {
 
 //@ func (wrec *WriteRecord) decodeHeader
 //@   props C09
-//@   ints bv
+//@   ints both
 //@   requires wrec.rec != nil && wrec.rec.Payload != nil
 //@   modifies wrec.crc, wrec.ksz, wrec.vsz, wrec.rec.Payload.TS, wrec.rec.Payload.Flag, wrec.rec.Payload.Ver
 //@   ensures err == nil
